@@ -215,6 +215,10 @@ def singles(ctx):
         for b in range(256):
             for s in ("%%%02X" % b, "%%%02x" % b, "x%%%02Xy" % b, "%%C3%%%02X" % b, "%%%02X%%A9" % b):
                 ctx.run("diff", cfg=cfg, s=s)
+        for t in ("%E2%82", "%E2", "%C3", "%F0%9F%98", "%F0%9F", "%F0"):
+            for stray in ("%", "%%", "%z", "%4", "%zz", "+", " ", "a", "%2"):
+                for tail in ("%AC", "%A9", "%80", "", "x", "%%AC", "%41"):
+                    ctx.run("diff", cfg=cfg, s=t + stray + tail)
         for d in gen.UNICODE_DIGITS:
             # characters that str.isdigit()/int()/\\d accept but that are not ASCII hex digits must not form an escape
             for s in ("%" + d + "1", "%4" + d, "%" + d + d, "a%" + d + "1b", "%" + d, "%41" + d):
